@@ -20,17 +20,80 @@ const (
 	kUSE
 	kALL
 	kPOST // a verb other than GET (letters of the late-registration family only)
+	// letters of the registration-forms family only (formMode):
+	kHEAD // the verb-specific registration methods Head, Put, Delete, Connect, Options, Trace, Patch
+	kPUT
+	kDELETE
+	kCONNECT
+	kOPTIONS
+	kTRACE
+	kPATCH
+	kADD2 // Add([]string{"GET", "POST"}, pattern, h): several methods in one registration
+	kUSEL // Use([]string{pattern, "/y"}, h): the documented multiple-prefix middleware registration
+	kGET2 // Get(pattern, pre, h): several handlers in one registration (pre traces itself and calls Next)
+	kUSE2 // Use(pattern, pre, h)
+	kRGET // router.Route(pattern).Get(h): a Route() registered from the enclosing group / sub-app
+	kRALL // router.Route(pattern).All(h): the middleware registration of a Route()
 )
 
-var kindNames = [...]string{"GET", "USE", "ALL", "POST"}
+var kindNames = [...]string{"GET", "USE", "ALL", "POST", "HEAD", "PUT", "DELETE", "CONNECT", "OPTIONS", "TRACE", "PATCH",
+	"GET+POST", "USE-LIST", "GET-2H", "USE-2H", "ROUTE.GET", "ROUTE.ALL"}
+
+// verbOf: the single HTTP method a kind registers ("" = not a single-verb kind)
+var verbOf = [...]string{"GET", "", "", "POST", "HEAD", "PUT", "DELETE", "CONNECT", "OPTIONS", "TRACE", "PATCH", "", "", "GET", "", "GET", ""}
+
+// useKind tells whether a leaf kind is a middleware (prefix-matching) registration.
+func useKind(k uint8) bool { return k == kUSE || k == kUSEL || k == kUSE2 || k == kRALL }
+
+// listAlt is the second prefix of a USE-LIST leaf.
+const listAlt = "/y"
 
 type node struct {
-	T      byte // 'r' route, 'g' group, 'm' mount
+	T      byte // 'r' route, 'g' group, 'm' mount, 's' the sub-app of the closest preceding sibling mount mounted AGAIN (shared sub-app family; no items of its own)
 	Kind   uint8
 	Pat    string
 	Next   bool
 	Prefix string
+	MW     bool // group created with a middleware handler: router.Group(prefix, mw) (registration-forms family)
 	Items  []*node
+
+	// set by link(): the mount an 's' node refers to (nil = none: it mounts a fresh empty sub-app) and,
+	// for a mount, the handler id of its first leaf
+	ref   *node
+	start int
+}
+
+// link resolves the 's' nodes of a tree (per item list: the closest preceding sibling mount) and
+// numbers the first leaf of every mount. Idempotent; called before a tree is analysed or built.
+func (t *tree) link() {
+	id := 0
+	linkItems(t.Items, &id)
+}
+
+func linkItems(items []*node, id *int) {
+	var last *node
+	for _, n := range items {
+		switch n.T {
+		case 'r':
+			*id++
+		case 'm':
+			n.start = *id
+			linkItems(n.Items, id)
+			last = n
+		case 'g':
+			linkItems(n.Items, id)
+		case 's':
+			n.ref = last
+		}
+	}
+}
+
+// refItems: the items an 's' node stands for.
+func (n *node) refItems() []*node {
+	if n.ref == nil {
+		return nil
+	}
+	return n.ref.Items
 }
 
 // Late > 0 makes the tree a two-phase program ("program steps after start-up"): the last Late
@@ -53,7 +116,7 @@ func (t *tree) lateHasMount() bool {
 	var has func(items []*node) bool
 	has = func(items []*node) bool {
 		for _, n := range items {
-			if n.T == 'm' || (n.T == 'g' && has(n.Items)) {
+			if n.T == 'm' || n.T == 's' || (n.T == 'g' && has(n.Items)) {
 				return true
 			}
 		}
@@ -76,28 +139,58 @@ var prefixRank = []string{"/api", "/", "/a-b", "/API", "/api/", "/:t"}
 // (the workers are single-threaded); the text form of a tree of this mode starts with "params:".
 var richMode bool
 
-var richPatRank = []string{"/x", "/", "/:id", "/:id?", "/:id<int>", "/:t", "/*", "/+", "/o/*"}
-var richPrefixRank = []string{"/api", "/:t", "/:t?", "/:t<int>", "/:t/:u", "/*", "/+", "/f/*/by", "/p/+/q", "/*/+"}
+// the letters after "/o/*" and "/*/+" belong to the pattern-shape family (enum.go)
+var richPatRank = []string{"/x", "/", "/:id", "/:id?", "/:id<int>", "/:t", "/*", "/+", "/o/*",
+	"x", "/x/y", "/x/", `/a\:b`, "/:id<odd>", "/:id<odd>/z", `/x\*`, "/v:id"}
+var richPrefixRank = []string{"/api", "/:t", "/:t?", "/:t<int>", "/:t/:u", "/*", "/+", "/f/*/by", "/p/+/q", "/*/+",
+	"api", "/v1/api", `/a\:b`, "/:t<odd>", "/api/v1/"}
+
+// formMode is the mode of the registration-forms family ("every way of registering"): requests use
+// every HTTP method, handlers also report Route().Method, the minimiser ranks the letters of that
+// family; the text form of a tree of this mode starts with "forms:".
+var formMode bool
+
+var formPatRank = []string{"/x", "/", "x", "/:id", "/*"}
+var formPrefixRank = []string{"/api", "/", "api", "/:t", "/v", "v"}
 
 func patRanks() []string {
-	if richMode {
+	switch {
+	case richMode:
 		return richPatRank
+	case formMode:
+		return formPatRank
 	}
 	return patRank
 }
 
 func prefixRanks() []string {
-	if richMode {
+	switch {
+	case richMode:
 		return richPrefixRank
+	case formMode:
+		return formPrefixRank
 	}
 	return prefixRank
 }
 
 func modePrefix() string {
-	if richMode {
+	switch {
+	case richMode:
 		return "params:"
+	case formMode:
+		return "forms:"
 	}
 	return ""
+}
+
+// setMode switches the exploration mode of the process (the workers are single-threaded).
+func setMode(rich, form bool) {
+	richMode, formMode = rich, form
+	if form {
+		methods = allMethods
+	} else {
+		methods = twoMethods
+	}
 }
 
 func rankOf(list []string, s string) int {
@@ -120,6 +213,8 @@ func (n *node) write(b *strings.Builder) {
 		} else {
 			b.WriteString(`" reply`)
 		}
+	case 's':
+		b.WriteString(`again("` + n.Prefix + `")`)
 	default:
 		if n.T == 'g' {
 			b.WriteString(`group("`)
@@ -127,7 +222,11 @@ func (n *node) write(b *strings.Builder) {
 			b.WriteString(`mount("`)
 		}
 		b.WriteString(n.Prefix)
-		b.WriteString(`"){`)
+		if n.MW {
+			b.WriteString(`" +mw){`)
+		} else {
+			b.WriteString(`"){`)
+		}
 		writeItems(b, n.Items)
 		b.WriteString("}")
 	}
@@ -157,12 +256,23 @@ func (t *tree) String() string {
 	return b.String()
 }
 
+// handler ids: leaf i (DFS order) runs handler i; the extra first handler of a two-handler
+// registration is handler i+preOffset; the middleware of the k-th group created with one is
+// handler mwOffset+k (trees of the registration-forms family have <= 4 leaves and <= 2 such groups).
+const (
+	preOffset = 4
+	mwOffset  = 8
+)
+
 // goProgram renders the tree as the Go program P (with mounts as written).
 func (t *tree) goProgram() string {
 	var b strings.Builder
 	sub := 0
 	grp := 0
 	id := 0
+	mw := 0
+	t.link()
+	subName := map[*node]string{}
 	var rec func(recv string, items []*node, ind string)
 	rec = func(recv string, items []*node, ind string) {
 		for i, n := range items {
@@ -175,20 +285,50 @@ func (t *tree) goProgram() string {
 				if n.Next {
 					beh = "next"
 				}
-				m := map[uint8]string{kGET: "Get", kUSE: "Use", kALL: "All", kPOST: "Post"}[n.Kind]
-				b.WriteString(ind + recv + "." + m + `("` + n.Pat + `", h` + string(rune('0'+id)) + beh + ")\n")
+				h := "h" + string(rune('0'+id)) + beh
+				pre := "h" + string(rune('0'+id+preOffset)) + "next"
+				q := `"` + n.Pat + `"`
+				switch n.Kind {
+				case kADD2:
+					b.WriteString(ind + recv + `.Add([]string{"GET", "POST"}, ` + q + ", " + h + ")\n")
+				case kUSEL:
+					b.WriteString(ind + recv + `.Use([]string{` + q + `, "` + listAlt + `"}, ` + h + ")\n")
+				case kGET2:
+					b.WriteString(ind + recv + ".Get(" + q + ", " + pre + ", " + h + ")\n")
+				case kUSE2:
+					b.WriteString(ind + recv + ".Use(" + q + ", " + pre + ", " + h + ")\n")
+				case kRGET:
+					b.WriteString(ind + recv + ".Route(" + q + ").Get(" + h + ")\n")
+				case kRALL:
+					b.WriteString(ind + recv + ".Route(" + q + ").All(" + h + ")\n")
+				default:
+					m := kindNames[n.Kind][:1] + strings.ToLower(kindNames[n.Kind][1:]) // Get, Use, All, Post, Head, ...
+					b.WriteString(ind + recv + "." + m + "(" + q + ", " + h + ")\n")
+				}
 				id++
 			case 'g':
 				g := "g" + string(rune('0'+grp))
 				grp++
-				b.WriteString(ind + g + " := " + recv + `.Group("` + n.Prefix + "\")\n")
+				if n.MW {
+					b.WriteString(ind + g + " := " + recv + `.Group("` + n.Prefix + `", h` + string(rune('0'+mwOffset+mw)) + "next)\n")
+					mw++
+				} else {
+					b.WriteString(ind + g + " := " + recv + `.Group("` + n.Prefix + "\")\n")
+				}
 				rec(g, n.Items, ind)
 			case 'm':
 				s := "sub" + string(rune('0'+sub))
 				sub++
+				subName[n] = s
 				b.WriteString(ind + s + " := fiber.New(cfg)\n")
 				rec(s, n.Items, ind)
 				b.WriteString(ind + recv + `.Use("` + n.Prefix + `", ` + s + ")\n")
+			case 's':
+				if s, ok := subName[n.ref]; ok {
+					b.WriteString(ind + recv + `.Use("` + n.Prefix + `", ` + s + ") // the same sub-app once more\n")
+				} else {
+					b.WriteString(ind + recv + `.Use("` + n.Prefix + "\", fiber.New(cfg))\n")
+				}
 			}
 		}
 	}
@@ -202,6 +342,7 @@ func (t *tree) goProgram() string {
 
 func cloneNode(n *node) *node {
 	c := *n
+	c.ref = nil
 	if n.Items != nil {
 		c.Items = make([]*node, len(n.Items))
 		for i, it := range n.Items {
@@ -281,9 +422,12 @@ func analyse(t *tree) *treeInfo {
 			add(p[:i] + "/%78" + p[i+2:])
 		}
 	}
-	var rec func(items []*node, chain []*node, acc string, depth int)
+	// ghost: the items are those of a sub-app mounted again ('s' node): their handlers are numbered
+	// where the sub-app is first mounted, only the request paths under the other prefix are derived
+	var rec func(items []*node, chain []*node, acc string, depth int, ghost bool)
 	top := 0
-	rec = func(items []*node, chain []*node, acc string, depth int) {
+	t.link()
+	rec = func(items []*node, chain []*node, acc string, depth int, ghost bool) {
 		for i, n := range items {
 			if depth == 0 {
 				top = i
@@ -293,17 +437,19 @@ func analyse(t *tree) *treeInfo {
 				if depth > 0 {
 					full = refJoin(acc, n.Pat)
 				}
-				id := len(ti.leaves)
-				ti.leaves = append(ti.leaves, leafInfo{n: n, chain: append([]*node(nil), chain...), full: full, top: top})
-				if depth > 0 {
-					ti.inside |= 1 << id
-				}
-				for _, c := range chain {
-					if c.T == 'm' {
-						ti.insideM |= 1 << id
+				if !ghost {
+					id := len(ti.leaves)
+					ti.leaves = append(ti.leaves, leafInfo{n: n, chain: append([]*node(nil), chain...), full: full, top: top})
+					if depth > 0 {
+						ti.inside |= 1 << id
+					}
+					for _, c := range chain {
+						if c.T == 'm' {
+							ti.insideM |= 1 << id
+						}
 					}
 				}
-				p := instantiate(full, "v")
+				p := instantiate(lead(full), "v")
 				addVariants(p)
 				if strings.HasSuffix(p, "/") && len(p) > 1 {
 					add(strings.TrimRight(p, "/"))
@@ -311,17 +457,26 @@ func analyse(t *tree) *treeInfo {
 					add(p + "/")
 				}
 				if strings.Contains(full, "*") {
-					add(instantiate(full, "v/w"))
+					add(instantiate(lead(full), "v/w"))
 				}
-				if n.Kind == kUSE {
+				if useKind(n.Kind) {
 					q := strings.TrimRight(p, "/")
 					add(q + "/v")
 					add(q + "v")
 				}
+				if n.Kind == kUSEL { // the second prefix of the list
+					alt := listAlt
+					if depth > 0 {
+						alt = refJoin(acc, listAlt)
+					}
+					q := instantiate(lead(alt), "v")
+					add(q)
+					add(q + "/v")
+				}
 				continue
 			}
 			ti.hasCont = true
-			if n.T == 'm' {
+			if n.T == 'm' || n.T == 's' {
 				ti.hasMount = true
 			}
 			nacc := n.Prefix
@@ -329,21 +484,35 @@ func analyse(t *tree) *treeInfo {
 				nacc = refJoin(acc, n.Prefix)
 			}
 			nchain := append(append([]*node(nil), chain...), n)
-			ti.containers = append(ti.containers, nchain)
-			ti.contTop = append(ti.contTop, top)
-			p := instantiate(nacc, "v")
+			if !ghost {
+				ti.containers = append(ti.containers, nchain)
+				ti.contTop = append(ti.contTop, top)
+			}
+			p := instantiate(lead(nacc), "v")
 			addVariants(strings.TrimRight(p, "/"))
 			add(strings.TrimRight(p, "/") + "/")
-			rec(n.Items, nchain, nacc, depth+1)
+			if n.T == 's' {
+				rec(n.refItems(), nchain, nacc, depth+1, true)
+				continue
+			}
+			rec(n.Items, nchain, nacc, depth+1, ghost)
 		}
 	}
-	rec(t.Items, nil, "", 0)
+	rec(t.Items, nil, "", 0, false)
 	ti.paths = make([]string, 0, len(set))
 	for p := range set {
 		ti.paths = append(ti.paths, p)
 	}
 	sort.Strings(ti.paths)
 	return ti
+}
+
+// lead spells a full pattern the way registration reads it: with a leading slash.
+func lead(full string) string {
+	if full != "" && full[0] != '/' {
+		return "/" + full
+	}
+	return full
 }
 
 // analyseRich is analyse for the parameterised-prefix family: the same structure information, the
@@ -362,8 +531,9 @@ func analyseRich(t *tree) *treeInfo {
 		set[p] = struct{}{}
 	}
 	top := 0
-	var rec func(items []*node, chain []*node, acc string, depth int)
-	rec = func(items []*node, chain []*node, acc string, depth int) {
+	t.link()
+	var rec func(items []*node, chain []*node, acc string, depth int, ghost bool)
+	rec = func(items []*node, chain []*node, acc string, depth int, ghost bool) {
 		for i, n := range items {
 			if depth == 0 {
 				top = i
@@ -373,17 +543,19 @@ func analyseRich(t *tree) *treeInfo {
 				if depth > 0 {
 					full = refJoin(acc, n.Pat)
 				}
-				id := len(ti.leaves)
-				ti.leaves = append(ti.leaves, leafInfo{n: n, chain: append([]*node(nil), chain...), full: full, top: top})
-				if depth > 0 {
-					ti.inside |= 1 << id
-				}
-				for _, c := range chain {
-					if c.T == 'm' {
-						ti.insideM |= 1 << id
+				if !ghost {
+					id := len(ti.leaves)
+					ti.leaves = append(ti.leaves, leafInfo{n: n, chain: append([]*node(nil), chain...), full: full, top: top})
+					if depth > 0 {
+						ti.inside |= 1 << id
+					}
+					for _, c := range chain {
+						if c.T == 'm' {
+							ti.insideM |= 1 << id
+						}
 					}
 				}
-				vs := instantiateRich(full)
+				vs := instantiateRich(lead(full))
 				for _, p := range vs {
 					add(p)
 				}
@@ -396,7 +568,7 @@ func analyseRich(t *tree) *treeInfo {
 				if up := strings.ToUpper(p); up != p {
 					add(up)
 				}
-				if n.Kind == kUSE {
+				if useKind(n.Kind) {
 					q := strings.TrimRight(p, "/")
 					add(q + "/z")
 					add(q + "z")
@@ -404,7 +576,7 @@ func analyseRich(t *tree) *treeInfo {
 				continue
 			}
 			ti.hasCont = true
-			if n.T == 'm' {
+			if n.T == 'm' || n.T == 's' {
 				ti.hasMount = true
 			}
 			nacc := n.Prefix
@@ -412,18 +584,24 @@ func analyseRich(t *tree) *treeInfo {
 				nacc = refJoin(acc, n.Prefix)
 			}
 			nchain := append(append([]*node(nil), chain...), n)
-			ti.containers = append(ti.containers, nchain)
-			ti.contTop = append(ti.contTop, top)
-			vs := instantiateRich(nacc)
+			if !ghost {
+				ti.containers = append(ti.containers, nchain)
+				ti.contTop = append(ti.contTop, top)
+			}
+			vs := instantiateRich(lead(nacc))
 			add(strings.TrimRight(vs[0], "/"))
 			add(strings.TrimRight(vs[0], "/") + "/")
 			if len(vs) > 1 {
 				add(vs[1])
 			}
-			rec(n.Items, nchain, nacc, depth+1)
+			if n.T == 's' {
+				rec(n.refItems(), nchain, nacc, depth+1, true)
+				continue
+			}
+			rec(n.Items, nchain, nacc, depth+1, ghost)
 		}
 	}
-	rec(t.Items, nil, "", 0)
+	rec(t.Items, nil, "", 0, false)
 	ti.paths = make([]string, 0, len(set))
 	for p := range set {
 		ti.paths = append(ti.paths, p)
@@ -474,11 +652,28 @@ func instantiateRich(full string) []string {
 				} else {
 					out = append(out, string(rune('0'+k%10)))
 				}
+			case strings.HasPrefix(sg, ":") && strings.Contains(sg, "<odd>"):
+				// custom constraint "odd" (pattern-shape family): odd digit; variant 4 an even digit, variant 3 a letter
+				k++
+				v := string(rune('0' + (2*k-1)%10))
+				switch variant {
+				case 3:
+					v = letter
+				case 4:
+					v = string(rune('0' + (2*k)%10))
+				}
+				out = append(out, v)
 			case strings.HasPrefix(sg, ":"):
 				k++
 				out = append(out, letter)
 			default:
-				out = append(out, sg)
+				// a constant; "\\" escapes a special character; a parameter may follow a constant inside the segment ("v:id")
+				if i := strings.Index(sg, ":"); i > 0 && sg[i-1] != '\\' {
+					k++
+					out = append(out, sg[:i]+letter)
+					continue
+				}
+				out = append(out, strings.ReplaceAll(sg, "\\", ""))
 			}
 		}
 		p := strings.Join(out, "/")
@@ -494,8 +689,11 @@ func instantiateRich(full string) []string {
 	if strings.ContainsAny(full, "*?") {
 		res = append(res, build(2))
 	}
-	if strings.Contains(full, "<int>") {
+	if strings.Contains(full, "<int>") || strings.Contains(full, "<odd>") {
 		res = append(res, build(3))
+	}
+	if strings.Contains(full, "<odd>") {
+		res = append(res, build(4))
 	}
 	return res
 }
@@ -541,7 +739,7 @@ func chainTree(chain []*node, leaf *node) *tree {
 		items = []*node{&c}
 	}
 	for i := len(chain) - 1; i >= 0; i-- {
-		c := &node{T: chain[i].T, Prefix: chain[i].Prefix, Items: items}
+		c := &node{T: chain[i].T, Prefix: chain[i].Prefix, MW: chain[i].MW, Items: items}
 		items = []*node{c}
 	}
 	return &tree{Items: items}
@@ -554,7 +752,7 @@ func containersOnly(t *tree) *tree {
 		var out []*node
 		for _, n := range items {
 			if n.T != 'r' {
-				out = append(out, &node{T: n.T, Prefix: n.Prefix, Items: rec(n.Items)})
+				out = append(out, &node{T: n.T, Prefix: n.Prefix, MW: n.MW, Items: rec(n.Items)})
 			}
 		}
 		return out
@@ -577,8 +775,8 @@ func (t *tree) measure() [5]int {
 				}
 				continue
 			}
-			if n.T == 'm' {
-				m[1]++
+			if n.T == 'm' || n.T == 's' || n.MW {
+				m[1]++ // a group without a middleware of its own is simpler than one with it
 			}
 			if t.Late > 0 {
 				m[1]++ // two-phase programs: a route is simpler than a container (empty group -> route)
@@ -678,6 +876,15 @@ func (t *tree) candidates() []*tree {
 			emit(c)
 		}
 	}
+	// 3a. a group created without its middleware
+	for _, a := range addrs {
+		c := t.clone()
+		p, i := at(c, a)
+		if (*p)[i].MW {
+			(*p)[i].MW = false
+			emit(c)
+		}
+	}
 	// 3b. two-phase programs: an empty group replaced by the simplest route (one canonical minimum)
 	if t.Late > 0 {
 		for _, a := range addrs {
@@ -764,8 +971,12 @@ func parseTree(s string) (t *tree, err error) {
 		}
 	}()
 	if strings.HasPrefix(s, "params:") { // a tree of the parameterised-prefix family: switch the mode (replay, -tree)
-		richMode = true
+		setMode(true, false)
 		s = s[len("params:"):]
+	}
+	if strings.HasPrefix(s, "forms:") { // a tree of the registration-forms family
+		setMode(false, true)
+		s = s[len("forms:"):]
 	}
 	pos := 0
 	skip := func() {
@@ -803,28 +1014,34 @@ func parseTree(s string) (t *tree, err error) {
 				continue
 			}
 			switch {
+			case strings.HasPrefix(s[pos:], "again("):
+				pos += 6
+				n := &node{T: 's'}
+				n.Prefix = str()
+				expect(")")
+				out = append(out, n)
 			case strings.HasPrefix(s[pos:], "group(") || strings.HasPrefix(s[pos:], "mount("):
 				n := &node{T: s[pos]}
 				pos += 6
 				n.Prefix = str()
+				skip()
+				if strings.HasPrefix(s[pos:], "+mw") {
+					n.MW = true
+					pos += 3
+				}
 				expect("){")
 				n.Items = items('}')
 				out = append(out, n)
 			default:
 				n := &node{T: 'r'}
-				k := s[pos : pos+3]
-				pos += 3
-				switch k {
-				case "GET":
-					n.Kind = kGET
-				case "USE":
-					n.Kind = kUSE
-				case "ALL":
-					n.Kind = kALL
-				case "POS":
-					expect("T")
-					n.Kind = kPOST
-				default:
+				j := strings.IndexByte(s[pos:], ' ')
+				if j < 0 {
+					panic("route kind at " + s[pos:])
+				}
+				k := s[pos : pos+j]
+				pos += j
+				n.Kind = uint8(rankOf(kindNames[:], k))
+				if int(n.Kind) == len(kindNames) {
 					panic("route kind " + k)
 				}
 				n.Pat = str()
